@@ -48,7 +48,11 @@ func HarnessC05PTReady() {
 	condStatus := map[xpv1.ConditionType]int{} // 0 absent, 1.. index into zzStatuses
 	var conds []any
 	for _, t := range []xpv1.ConditionType{xpv1.TypeReady, "Healthy"} {
-		k := zz.Choose("condition."+string(t), 4)
+		opts := 4
+		if t != xpv1.TypeReady {
+			opts = zz.Bound(2, 4)
+		}
+		k := zz.Choose("condition."+string(t), opts)
 		condStatus[t] = k
 		if k > 0 {
 			conds = append(conds, map[string]any{"type": string(t), "status": string(zzStatuses[k-1]), "reason": "r", "lastTransitionTime": "2024-01-01T00:00:00Z"})
@@ -82,7 +86,13 @@ func HarnessC05PTReady() {
 	want := true
 	for i := 0; i < nChecks; i++ {
 		nm := "check" + string(rune('0'+i))
-		switch zz.Choose(nm+".type", 7) {
+		kind := 0
+		if i == 0 || zz.Tier() == "thorough" {
+			kind = zz.Choose(nm+".type", 7)
+		} else {
+			kind = []int{2, 4, 6}[zz.Choose(nm+".type", 3)]
+		}
+		switch kind {
 		case 0:
 			checks = append(checks, v1.ReadinessCheck{Type: v1.ReadinessCheckTypeNone})
 		case 1:
